@@ -1152,7 +1152,7 @@ def FIBER(
     h = (
         length
         if (beta_2 == 0 and beta_3 == 0) or gamma == 0
-        else phi_max / (gamma * (np.abs(A[0]) ** 2 + np.abs(A[1]) ** 2)).max()
+        else phi_max / (gamma * np.sum(np.abs(np.atleast_2d(A)) ** 2, axis=0)).max()
     )
 
     x_length = h
@@ -1171,7 +1171,7 @@ def FIBER(
             barra_progreso.update(100 * h / length)
 
         h = (
-            phi_max / (gamma * (np.abs(A[0]) ** 2 + np.abs(A[1]) ** 2)).max()
+            phi_max / (gamma * np.sum(np.abs(np.atleast_2d(A)) ** 2, axis=0)).max()
             if gamma != 0
             else length
         )
